@@ -33,6 +33,8 @@
 #include "../core/core.h"
 #include "../netsim/msggen.h"   // Flat()
 #include "../netsim/wraps.h"
+#include "../netsim/simio.h"
+#include "dataio/PacketizedProxyDataIO.h"
 
 namespace vs { namespace c12 {
 
@@ -145,8 +147,46 @@ inline void GenPatternSampled(Plan & p, GModel & g, Rng & fl, const GFaults & f)
    }
 }
 
+// ----------------------------------------------------------------------------------------------- the tunnel over a byte stream (PacketizedProxyDataIO)
+// One run in twelve replaces the datagram network by what a deployment over TCP/serial uses: each gateway writes its packets through a PacketizedProxyDataIO
+// (length-prefixed packets over a byte stream) whose child is a simulated stream with plan-given chunk schedules: partial writes, partial reads (incl. a length
+// prefix that arrives in pieces), would-blocks.  The stream is reliable and ordered, so the property's second sentence applies in full: every Message that fits the
+// gateway's limits arrives exactly once, in order, and nothing else arrives.
+// cfg prop=C12 pp=1 mini= mtu= zl= slave=   |  chunks w|r <schedule>  |  msg 0 <gseed> <flatsize>  |  out 0 <maxBytes>  |  in <maxBytes>
+inline Plan GenPP(uint64_t seed)
+{
+   Rng cfg(seed, "ppconfig"), wl(seed, "ppworkload"), fl(seed, "ppfaults");
+   Plan p;
+   const bool mini = cfg.oneIn(3);
+   static const uint32_t mtus[] = {60, 100, 200, 576, 1500};
+   const uint32_t mtu = mtus[cfg.below(5)];
+   const int zl = mini ? (cfg.oneIn(2) ? 0 : (1 + (int) cfg.below(9))) : 0;
+   const bool slave = cfg.oneIn(3);
+   p.push_back("cfg prop=C12 pp=1 mini=" + I(mini) + " mtu=" + U(mtu) + " zl=" + I(zl) + " slave=" + I(slave));
+   const int fcls = cfg.oneIn(6) ? 0 : -1;
+   p.push_back("chunks w " + SchedToStr(GenChunkSchedule(fl, fcls)));
+   p.push_back("chunks r " + SchedToStr(GenChunkSchedule(fl, fcls)));
+   const uint32_t cap = mini ? (mtu-(kMiniPktHdr+kMiniChunkHdr)) : (mtu-kTunnelChunkHdr), sh = slave ? kSlaveHdr : 0;
+   const int n = 1 + (int) wl.below(14);
+   for (int i=0; i<n; i++)
+   {
+      const uint32_t k = wl.below(10);
+      if (k < 5)
+      {
+         uint32_t sz;
+         if (mini) {const uint32_t fit = (cap > sh) ? (cap-sh) : 0; sz = wl.oneIn(3) ? fit : (kFlatEmpty + wl.below((fit > kFlatEmpty) ? (fit-kFlatEmpty+1) : 1));}
+         else sz = wl.oneIn(4) ? (uint32_t)(cap*(1 + wl.below(5)) - sh + wl.below(3)) : (kFlatEmpty + wl.below(wl.oneIn(3) ? 6000 : 300));
+         p.push_back("msg 0 " + U(wl.u64() & 0xffffffffffffULL) + " " + U(RoundFlat(sz)));
+      }
+      else if (k < 8) p.push_back("out 0 " + U(wl.oneIn(3) ? (1 + wl.below(400)) : 0));
+      else p.push_back("in " + U(wl.oneIn(3) ? (1 + wl.below(400)) : 0));
+   }
+   return p;
+}
+
 inline Plan Gen(uint64_t seed)
 {
+   {Rng pp(seed, "ppmode"); if (pp.oneIn(12)) return GenPP(seed);}
    Rng cfg(seed, "config"), wl(seed, "workload"), fl(seed, "faults");
    Plan p;
    GModel g;
@@ -181,6 +221,9 @@ inline Plan Gen(uint64_t seed)
    const int fillBias = (int) cfg.below(5);   // 0-3: every Message uses that fill; 4: mixed
    p.push_back("cfg prop=C12 mini=" + I(g.mini) + " mtu=" + U(g.mtu) + " zl=" + I(zl) + " senders=" + I(senders) + " slave=" + I(slave) + " tag=" + I(tag) + " addr=" + I(addr)
              + " rxsex=" + U(rxsex) + " sex0=" + U(sex[0]) + " sex1=" + U(sex[1]) + " sex2=" + U(sex[2]) + " ts=" + I(g.ts));
+   // message-id wrap-around: the simulated network adds a per-run base to the message id of every fragment header a sender writes (all incarnations alike), which is
+   // what the receiver would see from a sender whose 32-bit counter started there; the counter then wraps within the first few Messages
+   {Rng ib(seed, "idbase"); const uint32_t idbase = ((!g.mini)&&(ib.oneIn(4))) ? (0xffffffffu - ib.below(6)) : 0; if (idbase) p.push_back("cfg idbase=" + U(idbase));}
    p.push_back(std::string("cfg faults=") + (f.any ? "" : "none") + (f.drop ? "drop," : "") + (f.dup ? "dup," : "") + (f.reorder ? "reorder," : "") + (f.wblock ? "wblock," : "") + (f.restart ? "restart," : ""));
 
    const uint32_t cap = g.Cap(), sh = g.slaveHdr;
@@ -375,7 +418,7 @@ struct SenderState
 struct Harness : public AbstractGatewayMessageReceiver
 {
    Cfg cfg; RunResult & res; TraceHash th; Stats & st;
-   bool mini, slave, tag; uint32_t mtu; int zl, senders; uint32_t rxsex; uint64_t ts;
+   bool mini, slave, tag; uint32_t mtu; int zl, senders; uint32_t rxsex, idbase; uint64_t ts;
    SenderState S[kMaxSenders];
    AbstractMessageIOGatewayRef R;
    std::vector<Pkt> inflight; std::deque<Pkt> rx;
@@ -395,6 +438,7 @@ struct Harness : public AbstractGatewayMessageReceiver
       zl      = (int) std::min<long long>(std::max<long long>(cfg.i("zl", 0), 0), 9);
       senders = (int) std::min<long long>(std::max<long long>(cfg.i("senders", 1), 1), kMaxSenders);
       rxsex   = (uint32_t) cfg.i("rxsex", 0);
+      idbase  = (uint32_t) cfg.i("idbase", 0);
       ts      = (uint64_t) cfg.i("ts", 0);
       const int addr = (int) cfg.i("addr", 0);
       for (int s=0; s<senders; s++)
@@ -429,12 +473,12 @@ struct Harness : public AbstractGatewayMessageReceiver
    }
 
    // hot counters (per packet / per Message); folded into the run's statistics at the end
-   enum {K_PACKED = 0, K_EXACT_MTU, K_MINI_COMP, K_MINI_FALLBACK, K_LATE, K_DUP_PKT, K_INTERLEAVED, K_OTHER_MID, K_SEX_PKT, K_TAGS, K_DELIVERED, K_TWICE, K_MULTI_FRAG, NUM_K};
+   enum {K_PACKED = 0, K_EXACT_MTU, K_MINI_COMP, K_MINI_FALLBACK, K_LATE, K_DUP_PKT, K_INTERLEAVED, K_OTHER_MID, K_SEX_PKT, K_TAGS, K_DELIVERED, K_TWICE, K_MULTI_FRAG, K_P_ID_WRAPPED, NUM_K};
    uint64_t k[NUM_K];
    void FoldCounters()
    {
       static const char * names[NUM_K] = {"p.packed_multi_msg_packet", "p.packet_exactly_mtu", "p.mini_packet_compressed", "p.mini_packet_compress_fallback", "p.late_packet", "p.duplicate_packet_delivered",
-                                          "p.interleaved_senders", "p.other_sender_mid_message", "p.sex_excluded_packet", "remote_location_tags_checked", "msgs_delivered", "p.whole_msg_delivered_twice_after_dup", "p.multi_fragment_msg"};
+                                          "p.interleaved_senders", "p.other_sender_mid_message", "p.sex_excluded_packet", "remote_location_tags_checked", "msgs_delivered", "p.whole_msg_delivered_twice_after_dup", "p.multi_fragment_msg", "p.message_id_wrapped_around"};
       for (int i=0; i<NUM_K; i++) {if (k[i]) st.inc(names[i], k[i]); k[i] = 0;}
    }
    [[noreturn]] void Violate(const std::string & cls, const std::string & detail) {FoldCounters(); res.hash = th.h; Fail(cls, detail);}
@@ -460,6 +504,17 @@ struct Harness : public AbstractGatewayMessageReceiver
       if ((n > mtu)&&(ioViolCls.empty())) {ioViolCls = "mtu_exceeded"; ioViolDetail = "sender " + I(src) + " wrote a packet of " + U(n) + " bytes although the MTU is " + U(mtu);}
       inflight.push_back(Pkt()); Pkt & p = inflight.back();
       p.b.assign((const char *) b, n); p.src = src; p.seq = ss.nextSeq++;
+      if ((idbase != 0)&&(!mini))
+      {
+         // rebase the message id of every fragment header in this packet (documented layout: magic, exclusion id, MESSAGE ID, offset, chunk size, total size)
+         size_t o = 0; uint8 * d = (uint8 *) &p.b[0];
+         while(o+kTunnelChunkHdr <= n)
+         {
+            const uint32 id = DefaultEndianConverter::Import<uint32>(d+o+8), cs = DefaultEndianConverter::Import<uint32>(d+o+16);
+            const uint32 nid = id + idbase; DefaultEndianConverter::Export(nid, d+o+8); if (nid < id) k[K_P_ID_WRAPPED]++;
+            o += kTunnelChunkHdr; if (o+cs > n) break; o += cs;
+         }
+      }
       Parse(p);
       ss.lastWrittenEndsPartial = p.endsPartial;
       if (p.chunks >= 2) k[K_PACKED]++;
@@ -751,8 +806,74 @@ struct Harness : public AbstractGatewayMessageReceiver
 inline io_status_t SimPacketDataIO :: ReadFrom(void * b, uint32 n, IPAddressAndPort & src) {return _h->OnRead(b, n, src);}
 inline io_status_t SimPacketDataIO :: WriteTo(const void * b, uint32 n, const IPAddressAndPort &) {return _h->OnWrite(_src, b, n);}
 
+class PPReceiver : public AbstractGatewayMessageReceiver
+{
+public:
+   std::vector<std::string> got;
+protected:
+   virtual void MessageReceivedFromGateway(const MessageRef & msg, void *) {if (msg()) {MessageRef c = GetMessageFromPool(*msg()); if (c()) {(void) c()->RemoveName(PR_NAME_PACKET_REMOTE_LOCATION); got.push_back(Flat(c));}}}
+};
+inline void ExecPP(const Plan & plan, RunResult & res)
+{
+   Cfg cfg(plan); TraceHash th; Stats & st = res.stats;
+   const bool mini = (cfg.i("mini", 0) != 0), slave = (cfg.i("slave", 0) != 0);
+   const uint32 mtu = EffMtu(mini, (uint32) std::min<long long>(std::max<long long>(cfg.i("mtu", 200), 0), 65536));
+   const int zl = (int) std::min<long long>(std::max<long long>(cfg.i("zl", 0), 0), 9);
+   SimStream a2b, b2a;
+   auto MakeGw = [&]() -> AbstractMessageIOGatewayRef
+   {
+      AbstractMessageIOGatewayRef sl; if (slave) sl.SetRef(new MessageIOGateway());
+      if (mini) {MiniPacketTunnelIOGateway * g = new MiniPacketTunnelIOGateway(sl, mtu); if (zl > 0) g->SetZLibCompressionLevel((uint8) zl); return AbstractMessageIOGatewayRef(g);}
+      return AbstractMessageIOGatewayRef(new PacketTunnelIOGateway(sl, mtu));
+   };
+   AbstractMessageIOGatewayRef S = MakeGw(), R = MakeGw();
+   S()->SetDataIO(DataIORef(new PacketizedProxyDataIO(DataIORef(new SimDataIO(&b2a, &a2b)), mtu)));
+   R()->SetDataIO(DataIORef(new PacketizedProxyDataIO(DataIORef(new SimDataIO(&a2b, &b2a)), mtu)));
+   PPReceiver rx; std::vector<std::string> sent; uint64_t tooBig = 0;
+   auto CheckPrefix = [&](const char * when)
+   {
+      if (rx.got.size() > sent.size()) Fail("not_sent", std::string(when) + ": the receiver was handed " + U(rx.got.size()) + " Messages although only " + U(sent.size()) + " were sent (tunnel over PacketizedProxyDataIO)");
+      for (size_t i=0; i<rx.got.size(); i++) if (rx.got[i] != sent[i]) Fail("not_sent", std::string(when) + ": delivered Message #" + U(i) + " (" + U(rx.got[i].size()) + " bytes) is not the " + U(i) + "th Message sent (" + U(sent[i].size()) + " bytes) (tunnel over PacketizedProxyDataIO)");
+   };
+   // (as ReflectServer does for every session: a DataIO that holds buffered output gets to flush it whenever its socket is writable)
+   auto Out = [&](uint32 mx) {if (S()->GetDataIO()()->HasBufferedOutput()) {S()->GetDataIO()()->WriteBufferedOutput(); st.inc("p.packetizer_flushed_buffered_output");} const io_status_t r = S()->DoOutput(mx ? mx : MUSCLE_NO_LIMIT); th.u((uint64_t)(int64_t) r.GetByteCount()); if (r.IsError()) Fail("stream_tunnel_error", std::string("sender DoOutput over a reliable stream returned ") + r.GetStatus()());};
+   auto In  = [&](uint32 mx) {const io_status_t r = R()->DoInput(rx, mx ? mx : MUSCLE_NO_LIMIT); th.u((uint64_t)(int64_t) r.GetByteCount()); if (r.IsError()) Fail("stream_tunnel_error", std::string("receiver DoInput over a reliable stream returned ") + r.GetStatus()()); CheckPrefix("after input");};
+   size_t opIdx = 0;
+   for (const std::string & line : plan)
+   {
+      opIdx++; if (line.compare(0, 4, "cfg ") == 0) continue;
+      const std::vector<std::string> t = Split(line); if (t.empty()) continue;
+      SetCurOp("C12/pp op %zu: %.200s", opIdx, line.c_str()); WatchdogArm(0); th.s(t[0]);
+      if ((t[0] == "chunks")&&(t.size() >= 2)) {std::vector<uint32_t> v; for (size_t i=2; i<t.size(); i++) v.push_back((uint32_t) ToU(t[i])); a2b.SetSched(t[1] == "w", v);}
+      else if ((t[0] == "msg")&&(t.size() >= 4))
+      {
+         const uint32 sz = (uint32) std::min<uint64_t>(ToU(t[3]), 40000);
+         MessageRef m = Harness::BuildMsg(0, ToU(t[2]), RoundFlat(sz)); if (m() == NULL) continue;
+         const uint32 fs = m()->FlattenedSize() + (slave ? kSlaveHdr : 0);
+         if ((mini)&&((kMiniPktHdr+kMiniChunkHdr+fs) > mtu)) {tooBig++; continue;}   // beyond the mini tunnel's limit (it drops such a Message by design): not sent
+         if (S()->AddOutgoingMessage(m).IsError()) Fail("harness", "AddOutgoingMessage failed");
+         sent.push_back(Flat(m)); st.inc("msgs_sent");
+      }
+      else if ((t[0] == "out")&&(t.size() >= 3)) Out((uint32) ToU(t[2]));
+      else if ((t[0] == "in")&&(t.size() >= 2))  In((uint32) ToU(t[1]));
+   }
+   // drain: under the plan's schedules first, then fault-free with a step bound
+   SetCurOp("C12/pp drain"); WatchdogArm(0);
+   for (int i=0; (i<4000)&&(rx.got.size() < sent.size()); i++) {Out(0); In(0);}
+   const std::vector<uint32_t> whole(1, 0xffffffffu); a2b.SetSched(true, whole); a2b.SetSched(false, whole);
+   uint64_t sentBytes = 0; for (auto & x : sent) sentBytes += x.size();
+   const int bound = 64 + 8*(int) sent.size() + (int)(sentBytes/16); for (int i=0; (i<bound)&&(rx.got.size() < sent.size()); i++) {Out(0); In(0);}
+   for (int i=0; i<3; i++) {Out(0); In(0);}
+   WatchdogDisarm();
+   if (rx.got.size() != sent.size()) Fail("perfect_mismatch", "tunnel over PacketizedProxyDataIO on a reliable, ordered byte stream: " + U(rx.got.size()) + " of " + U(sent.size()) + " Messages arrived (mini=" + I(mini) + " mtu=" + U(mtu) + " slave=" + I(slave) + ", " + U(a2b.q.size()) + " bytes still in the stream)");
+   st.inc("runs_stream_packetizer"); st.inc("msgs_delivered", rx.got.size()); st.inc("f.short_read", a2b.shortReads); st.inc("f.short_write", a2b.shortWrites); st.inc("f.would_block", a2b.wouldBlocks); st.inc("p.mini_message_beyond_limit_not_sent", tooBig);
+   for (auto & g : rx.got) th.s(g);
+   res.hash = th.h; res.nontrivial = (!sent.empty())&&(a2b.totalRead > 0);
+}
+
 inline void Exec(const Plan & plan, RunResult & res)
 {
+   {Cfg c0(plan); if (c0.i("pp", 0)) {ExecPP(plan, res); return;}}
    Harness h(plan, res);
    size_t opIdx = 0;
    for (const std::string & line : plan)
